@@ -25,14 +25,18 @@ def claimed():
 
 
 def run_checks(props):
-  res = {}
-  for p in props:
+  from concurrent.futures import ThreadPoolExecutor
+
+  def one(p):
     r = subprocess.run([os.path.join(VERIF, 'check'), p, 'quick', '--no-evidence'],
                        capture_output=True, text=True)
     rules = sorted({ln.split('[')[1].split(']')[0] for ln in r.stdout.splitlines()
                     if ln.strip().startswith('ml_metrics/') and '[' in ln})
-    res[p] = (r.returncode, rules)
-  return res
+    return p, (r.returncode, rules)
+
+  # the checks only read /repo: run them side by side on the patched tree
+  with ThreadPoolExecutor(min(16, len(props))) as ex:
+    return dict(ex.map(one, props))
 
 
 def main():
